@@ -15,7 +15,8 @@ import GmqttVerif.Properties.C13
                                resolves every packet to the message's real topic (lifts C13 `outbound_alias_sound`);
   inbound   `inbound_alias_*`  the verdict for every Topic Alias on a v5 PUBLISH, and the refinement of C13's `inbound_alias` spec;
             `inbound_quota*`   the receive quota is Receive Maximum minus the units in use; never 0x93 below the limit,
-                               always 0x93 above it; how "in use" differs from "QoS 2 not yet released";
+                               always 0x93 above it; retransmissions do not count; how "in use" still differs from
+                               "QoS 2 not yet released" (PUBREL of an unknown id);
             `inbound_size`     0x95 exactly for packets larger than the server's Maximum Packet Size;
   CONNECT   `negotiate_ok`     what `connect` installs and advertises.
 
@@ -27,7 +28,8 @@ import GmqttVerif.Properties.C13
     `conn`, and `conn` is no longer registered;
   * `DecodeOk c r` : the packet decoder lets the PUBLISH through (no alias 0, no zero-length topic name without alias);
   * `Pkt.aliasView`, `recvRun` : a PUBLISH as a client-side alias table sees it; the table run (`Alias.recv` of C13);
-  * `inUse conn b n steps` : receive-quota units in use on `conn` after `steps`;
+  * `inUse conn b n steps` : receive-quota units in use on `conn` after `steps`; `outstanding b conn pid` : the QoS 2
+    packet id is awaiting PUBREL on the session of `conn`;
   * `KeepCli I O rm c c'` : the record `c'` is `c` up to window / DISCONNECT flags, up to quota and inbound alias table
     if the connection is in `I`, and up to the outbound alias manager if it is in `O`.
 -/
@@ -313,13 +315,14 @@ theorem inbound_alias_refines_spec (cfg : Cfg) (c : Cli) (r : PubReq) (st : Alia
 
 /-- 4. `inbound_quota`. In every state reachable from the empty broker, for every online v5 connection:
     receive quota + units in use = the configured (and advertised) Receive Maximum, where `inUse` counts, since the
-    CONNECT that registered the connection: +1 for every QoS 2 PUBLISH on it that did not end the connection, −1 (not
-    below 0) for every PUBREL on it; a QoS 1 PUBLISH takes a unit and gets it back with its PUBACK at once; no other
-    step — of this or any other connection — changes the quota.
-    This is the model's (= `readLoop` / `tryDecServerQuota` / `addServerQuota`) bookkeeping. It differs from "QoS 2
-    publishes accepted and not yet released" in two corners, both exhibited below: a duplicate of an outstanding QoS 2
-    PUBLISH takes another unit (`inbound_quota_counts_duplicates`), and a PUBREL for a packet id that is not
-    outstanding gives a unit back (`inbound_quota_pubrel_any_id`). -/
+    CONNECT that registered the connection: +1 for every QoS 2 PUBLISH on it that did not end the connection and whose
+    packet id was not already awaiting PUBREL (`outstanding`), −1 (not below 0) for every PUBREL on it; a QoS 1
+    PUBLISH takes a unit and gets it back with its PUBACK at once, and so does a retransmission of a QoS 2 PUBLISH
+    still awaiting PUBREL (its id already holds a unit: `inbound_quota_ignores_duplicates`); no other step — of this or
+    any other connection — changes the quota.
+    This is the model's (= `readLoop` / `tryDecServerQuota` / `addServerQuota`) bookkeeping. As far as PUBLISH packets
+    go it is "QoS 2 publishes accepted and not yet released"; it still differs from that in one corner, exhibited
+    below: a PUBREL for a packet id that is not outstanding gives a unit back (`inbound_quota_pubrel_any_id`). -/
 theorem inbound_quota (cfg : Cfg) (steps : List Step) (conn : String) (c : Cli)
     (hc : (runB { cfg := cfg } steps).cli? conn = some c) (hv : c.v = 5) :
     c.quota + inUse conn { cfg := cfg } 0 steps = cfg.recvMax := by
@@ -376,14 +379,22 @@ def exDupSteps : List Step :=
    .publish { conn := "p", topic := "t", qos := 2, pid := 1 },
    .publish { conn := "p", topic := "t", qos := 2, pid := 1, dup := true }]
 
-/-- 4d. discrepancy 1: ONE QoS 2 publication is outstanding (`unack = [1]`), but two units are in use, the quota is 0,
-    and the next QoS 1 PUBLISH ends the connection with 0x93. -/
-theorem inbound_quota_counts_duplicates :
+/-- 4d. duplicates do not count: after a QoS 2 PUBLISH and its retransmission ONE publication is outstanding
+    (`unack = [1]`), one unit is in use, the quota is 1, and the next QoS 1 PUBLISH is accepted and acknowledged.
+    (Before the fix of the code — commit dd72ab4 — the retransmission kept a second unit and this PUBLISH was
+    refused with 0x93.) -/
+theorem inbound_quota_ignores_duplicates :
     let b := runB { cfg := { recvMax := 2 } } exDupSteps
-    (b.sess? "pub").map (·.unack) = some [1] ∧ (b.cli? "p").map (·.quota) = some 0 ∧
-    inUse "p" { cfg := { recvMax := 2 } } 0 exDupSteps = 2 ∧
-    newH b (b.publish { conn := "p", topic := "t", qos := 1, pid := 2 }) "p" = [.disconnect 0x93, .closed] := by
+    (b.sess? "pub").map (·.unack) = some [1] ∧ (b.cli? "p").map (·.quota) = some 1 ∧
+    inUse "p" { cfg := { recvMax := 2 } } 0 exDupSteps = 1 ∧
+    newH b (b.publish { conn := "p", topic := "t", qos := 1, pid := 2 }) "p" = [.puback 2 0x10] := by
   decide
+
+/-- 4d'. in general: a retransmission of a QoS 2 PUBLISH whose id is awaiting PUBREL leaves the units in use as they
+    are, whatever else the step does. -/
+theorem inbound_quota_duplicate_step (b : B) (r : PubReq) (n : Nat) (h2 : r.qos = 2)
+    (hout : outstanding b r.conn r.pid = true) : inUseStep r.conn b (.publish r) n = n := by
+  simp [inUseStep, h2, hout]
 
 /-- Receive Maximum 2; three QoS 2 publications (ids 1, 2, 3) with a PUBREL for the unrelated id 99 in between -/
 def exRelSteps : List Step :=
@@ -394,7 +405,7 @@ def exRelSteps : List Step :=
    .pubrel "p" 99,
    .publish { conn := "p", topic := "t", qos := 2, pid := 3 }]
 
-/-- 4e. discrepancy 2: THREE QoS 2 publications are outstanding (`unack = [1, 2, 3]`) although Receive Maximum is 2:
+/-- 4e. the remaining discrepancy: THREE QoS 2 publications are outstanding (`unack = [1, 2, 3]`) although Receive Maximum is 2:
     every PUBREL, also for an id that was never published, is answered with PUBCOMP and gives a unit back; one unit is
     in use, the quota is 1, nothing was refused. -/
 theorem inbound_quota_pubrel_any_id :
